@@ -39,8 +39,9 @@ def build_registry():
     from contracts import class_c, mapping_c
     class_c.register(reg)
     mapping_c.register(reg)
-    from contracts import method_frame_c
+    from contracts import method_frame_c, props_c
     method_frame_c.register(reg)
+    props_c.register(reg)
     return reg
 
 
